@@ -203,6 +203,9 @@ func (m *MonC09) AfterBlock(o *BlockOutcome) {
 			return
 		}
 		rep.Class("C09.clock/no-eligible-asset")
+		if len(o.Pre.AssetOrder) == 0 {
+			rep.Class("C09.clock/empty-whitelist")
+		}
 	default:
 		// eligible assets exist but all deductions round to nothing: the clock waits (see clock-lag)
 		if L2.After(T) || L2.Before(L) {
